@@ -182,6 +182,51 @@ def gen_multi_conf(rng: random.Random, spec: dict) -> dict:
     return {"idle_timeout": int(idle), "crashes": rng.choice([0, 0, 0, 0, 1]), "crash_pct": 10, "horizon": 300}
 
 
+def gen_budget_case(rng: random.Random) -> tuple[str, dict, dict]:
+    """A step whose retry policy is bounded by ELAPSED TIME (stop_after_delay(D) / stop_before_delay(D), wait_fixed(w)) fails
+    n >= 2 times in a row -- every failure well inside the budget, so every retry is granted and the second and later ones
+    are journaled as retry ticks carrying the original first-attempt time -- and then the run leaves memory for LONGER than
+    the budget D:
+      in_flight  the execution of retry n is still working (sleep) when the process stops; downtime 0 / D / 3D / 50 s; a
+                 sibling branch keeps the run busy throughout, so the handler is never flagged idle and the next boot resumes it;
+      pending    the process stops while the delay of retry n is running (the timer itself is the known loss; what the
+                 reload makes of the journaled failures is still observed);
+      waiting    retry n succeeds as far as a wait_for_event nobody answers; the run is released for idleness
+                 (idle_timeout just above the retry delay) and reloaded by the awaited event D / 2D / 40 s later.
+    Uninterrupted, each of these runs completes after n failures + 1 success of the step."""
+    kind = rng.choice(["delay", "delay", "before_delay"])
+    shape = rng.choice(["in_flight", "in_flight", "in_flight", "pending", "waiting", "waiting"])
+    n = rng.choice([2, 2, 3])
+    w = rng.choice([2, 3] if shape == "pending" else [1, 2, 3])
+    D = n * w + rng.choice([1, 2, 4])  # failure k comes (k-1)*w after the first attempt: (n-1)*w (+ w) < D, every retry is granted
+    pol = {"kind": kind, "d": D, "wait": w}
+    exc = rng.randint(1, 9)
+    if shape == "waiting":
+        worker = {"name": "s02", "accepts": [5], "nw": rng.randint(1, 2), "retry": pol,
+                  "script": [["fail_until", n, exc], ["wait", 3, None, None, rng.choice([None, "w01"]), None], ["ret", "stop"]]}
+        start = {"name": "s00", "accepts": [0], "nw": 1, "retry": None, "script": [["ret", "5"]]}
+        steps = [start, worker]
+        idle = w + rng.choice([1, 2])
+        t_send = n * w + idle + rng.choice([D, 2 * D, 40])
+        conf = {"idle_timeout": idle, "plan": [["until", t_send], ["send", 3, None, None], ["until", t_send + 20]]}
+    else:
+        L = rng.choice([10, 20, 40])
+        worker = {"name": "s02", "accepts": [5], "nw": rng.randint(1, 2), "retry": pol,
+                  "script": [["fail_until", n, exc], ["sleep", L], ["ret", "stop"]]}
+        busy = rng.random() < 0.85
+        start = {"name": "s00", "accepts": [0], "nw": 1, "retry": None,
+                 "script": ([["send", 7, None, 1]] if busy else []) + [["ret", "5"]]}
+        steps = [start, worker]
+        if busy:
+            steps.append({"name": "s06", "accepts": [7], "nw": 1, "retry": None, "script": [["sleep", 500], ["ret", "none"]]})
+        t_cut = (n * w + rng.randint(1, L - 1)) if shape == "in_flight" else ((n - 1) * w + rng.randint(1, w - 1))
+        down = rng.choice([0, D, 3 * D, 50])
+        conf = {"idle_timeout": rng.choice([10 ** 6, 10 ** 6, 200]),
+                "plan": [["until", t_cut], ["crash", down], ["until", t_cut + down + 2 * (n * w + L) + 10]]}
+    rng.shuffle(steps)
+    return shape, {"steps": steps, "externals": [], "timeout": None}, conf
+
+
 def gen_conf(rng: random.Random, spec: dict, cut: bool) -> dict:
     if not cut:
         return {"idle_timeout": 10 ** 6, "crashes": 0, "horizon": 300}
@@ -260,7 +305,13 @@ def _one(out: Outcome, batch: _Batch, stream: str, fam: str, spec: dict, conf: d
         out.count(f"{stream}:three_or_more_pending:{shape}")
     if exps or cs:
         out.nontrivial((json.dumps(spec, sort_keys=True), json.dumps(conf, sort_keys=True), tuple(tr.actions)))
-    vs = timers.mon_timers(tr, case)
+    vs = timers.mon_timers(tr, case) + timers.mon_granted_retries(tr, case)
+    for (lo, hi) in timers.reloads(tr):
+        fs = timers._failure_decisions(tr.trace.calls, lo, hi, "replay_ticks_stream")
+        tb = [f for f in fs if any(st["name"] == f[1] and (st.get("retry") or {}).get("kind") in ("delay", "before_delay") for st in spec["steps"])]
+        out.count(f"{stream}:reload:replayed_failures:{min(len(fs), 3)}{'+' if len(fs) >= 3 else ''}")
+        if tb:
+            out.count(f"{stream}:reload:time_bounded_policy:replayed_failures:{min(len(tb), 3)}{'+' if len(tb) >= 3 else ''}")
     if tr.end == "runaway":
         vs.append(Violation("C14/control_loop_spins", "the event loop never became quiescent: the control loop spins at one instant of virtual time "
                             f"(t={tr.final.get('t')}); timers expected: {[(e.kind, e.step, e.due) for e in exps if e.delivered_t is None]}", case))
@@ -329,7 +380,9 @@ def run(env: Env) -> Outcome:
                 "stream 'norelease': idle_timeout 1e6, no process stop (monitors must be silent); stream 'cut': idle_timeout = a pending delay -1/0/+1, 1, 2x or 1000, "
                 "0-2 process stops at random quiescent points, service sends; stream 'multi': 3-5 timers (wait_for_event timeouts / retry delays from 2..27 s, "
                 "25% with a tie, 35% with a workflow timeout) pending at once, armed in random order, idle_timeout = largest gap between consecutive due times +1/+2/+0, "
-                "1e6, a delay -1/+1 or 1, one process stop in 20% of the runs; non-trivial = a run with at least one expected timer or one cut; "
+                "1e6, a delay -1/+1 or 1, one process stop in 20% of the runs; stream 'budget': retry policies bounded by elapsed time (stop_after_delay / stop_before_delay D, "
+                "wait_fixed 1..3 s), 2-3 failures all granted inside D, then the run leaves memory for 0 / D / 2D / 3D / 40 / 50 s -- process stop with retry n in flight (50%) or "
+                "its delay running (17%), idle release while retry n waits for an event (33%) -- and is reloaded; non-trivial = a run with at least one expected timer or one cut; "
                 "distinct by (spec, conf, schedule)")
     rng = random.Random(env.rng.randrange(1 << 30))
     batch = _Batch()
@@ -355,6 +408,12 @@ def run(env: Env) -> Outcome:
     for _ in range(env.budget(100, 2500)):
         spec = gen_multi_timer_spec(rng)
         _one(out, batch, "multi", "multi", spec, gen_multi_conf(rng, spec), rng.randrange(1 << 30), None)
+        if len(batch.ops) > 60000:
+            _flush(out, batch)
+            batch = _Batch()
+    for _ in range(env.budget(60, 1500)):
+        shape, spec, conf = gen_budget_case(rng)
+        _one(out, batch, "budget", shape, spec, conf, rng.randrange(1 << 30), None)
         if len(batch.ops) > 60000:
             _flush(out, batch)
             batch = _Batch()
